@@ -150,6 +150,8 @@ def main():
             print("VIOLATION property=%s replay=%s%s" % (pid, path, (" " + suffix) if suffix else ""))
             if what:
                 print("  " + what[:500])
+        for u in undecided:
+            print("NOTE (undecided part) property=%s %s" % (pid, u[:300]))
         sys.exit(1)
     if undecided:
         for u in undecided:
